@@ -12,6 +12,7 @@ import (
 
 	"github.com/cossacklabs/acra/crypto"
 	"github.com/cossacklabs/acra/decryptor/base"
+	"github.com/cossacklabs/acra/decryptor/base/type_awareness"
 	"github.com/cossacklabs/acra/decryptor/mysql"
 	base_mysql "github.com/cossacklabs/acra/decryptor/mysql/base"
 	encryptor "github.com/cossacklabs/acra/encryptor/base"
@@ -19,9 +20,11 @@ import (
 	"github.com/cossacklabs/acra/encryptor/base/config/common"
 )
 
-// c19my: the MySQL twins (DataDecoderProcessor / DataEncoderProcessor and the TypeLong, TypeLongLong, TypeString,
-// TypeBlob encoders) over the same cross product, ORACLE ONLY: nothing is replayed on the Coq model.
-func init() { register("c19my", "Model.RunTyped", runC19My) }
+// c19my: the MySQL twins of c19 — the TypeLong / TypeLongLong / TypeString / TypeBlob encoders,
+// DataDecoderProcessor / DataEncoderProcessor, updateFieldEncodedType and the one-column data row of
+// processTextDataRow / processBinaryDataRow — REPLAYED on Model/RunTypedMysql.v, plus the property's oracle on
+// the implementation (independent reference encodings below).
+func init() { register("c19my", "Model.RunTypedMysql", runC19My) }
 
 func lenEnc(b []byte) []byte { return base_mysql.PutLengthEncodedString(append([]byte{}, b...)) }
 
@@ -59,149 +62,828 @@ func myDefault(kind int, binaryFmt bool, d string) ([]byte, bool) {
 	return myTyped(kind, binaryFmt, []byte(d))
 }
 
-func runC19My(rep *vh.Report, r *vh.Rng, n int, thorough bool) {
-	r = vh.NewRng(r.U64())
-	sc := 0
-	one := func(kind, pol int, binaryFmt, hasKey bool, storedAs int) {
-		sc++
-		lab := fmt.Sprintf("my sc%d kind=%d pol=%s bin=%v key=%v stored=%d", sc, kind, policyWords[pol], binaryFmt, hasKey, storedAs)
-		rep.Count(fmt.Sprintf("kind:%d", kind))
-		rep.Count("policy:" + policyWords[pol])
-		rep.Count(fmt.Sprintf("binary:%v", binaryFmt))
-		rep.Count(fmt.Sprintf("reader-has-key:%v", hasKey))
-		rep.Count(fmt.Sprintf("stored:%d", storedAs))
-		var def *string
-		if pol == 2 {
-			d := genDefault(r, kind, true)
-			def = &d
+// ---------- Coq terms ----------
+
+func c19myCoqCI(binaryFmt bool, typ, origin byte) string {
+	return fmt.Sprintf("(mk_ci %s %d %d)", c19CoqBool(binaryFmt), typ, origin)
+}
+
+func c19myCoqCD(f mysql.VerifField) string {
+	return fmt.Sprintf("(mk_cd %d %d %s %d %d %d %d)", f.Type, f.OriginType, c19CoqBool(f.Changed), f.Charset, f.ColumnLength, f.Flag, f.Decimal)
+}
+
+// c19myCDVals: what the client is told about the column (fixed-length tail of the dumped definition) + bookkeeping
+func c19myCDVals(f mysql.VerifField, dump []byte) [][]byte {
+	tail := dump
+	if len(dump) >= 13 {
+		tail = dump[len(dump)-13:]
+	}
+	ch := byte(0)
+	if f.Changed {
+		ch = 1
+	}
+	return [][]byte{append([]byte{}, tail...), {f.OriginType}, {ch}}
+}
+
+func c19myStatus(err error) vh.Outcome {
+	if _, ok := err.(*base.EncodingError); ok {
+		return vh.Ok([]byte{1})
+	}
+	if err == base_mysql.ErrConvertToDataType {
+		return vh.Ok([]byte{4})
+	}
+	return vh.Ok([]byte{2})
+}
+
+func c19myFlag(b bool) []byte {
+	if b {
+		return []byte{1}
+	}
+	return []byte{0}
+}
+
+// ---------- schema store with one table "t" / column "c" ----------
+
+type c19myStore struct{ set config.ColumnEncryptionSetting }
+type c19mySchema struct{ set config.ColumnEncryptionSetting }
+
+func (s *c19myStore) GetDatabaseSettings() config.DatabaseSettings { return nil }
+func (s *c19myStore) GetGlobalSettingsMask() config.SettingMask    { return 0 }
+func (s *c19myStore) GetTableSchema(name string) config.TableSchema {
+	if name != "t" {
+		return nil
+	}
+	return &c19mySchema{s.set}
+}
+func (s *c19mySchema) Name() string                 { return "t" }
+func (s *c19mySchema) Columns() []string            { return []string{"c"} }
+func (s *c19mySchema) NeedToEncrypt(n string) bool  { return n == "c" }
+func (s *c19mySchema) GetColumnEncryptionSettings(n string) config.ColumnEncryptionSetting {
+	if n != "c" {
+		return nil
+	}
+	return s.set
+}
+
+// ---------- value tables ----------
+
+var c19myBlobTypes = []base_mysql.Type{base_mysql.TypeBlob, base_mysql.TypeBlob, base_mysql.TypeBlob, base_mysql.TypeVarString, base_mysql.TypeString,
+	base_mysql.TypeTinyBlob, base_mysql.TypeMediumBlob, base_mysql.TypeLongBlob, base_mysql.TypeVarchar}
+var c19myOtherLenencTypes = []base_mysql.Type{base_mysql.TypeDecimal, base_mysql.TypeNewDecimal, base_mysql.TypeBit, base_mysql.TypeEnum, base_mysql.TypeSet,
+	base_mysql.TypeGeometry, base_mysql.TypeDate, base_mysql.TypeNewDate, base_mysql.TypeTimestamp, base_mysql.TypeDatetime, base_mysql.TypeTime}
+var c19myIntTypes = []base_mysql.Type{base_mysql.TypeLong, base_mysql.TypeLongLong, base_mysql.TypeTiny, base_mysql.TypeShort, base_mysql.TypeInt24, base_mysql.TypeYear}
+
+func c19myIntWidth(t base_mysql.Type) int {
+	switch t {
+	case base_mysql.TypeTiny:
+		return 1
+	case base_mysql.TypeShort, base_mysql.TypeYear:
+		return 2
+	case base_mysql.TypeInt24, base_mysql.TypeLong:
+		return 4
+	case base_mysql.TypeLongLong:
+		return 8
+	}
+	return 0
+}
+
+func c19myPin(b []byte) []byte { // capacity = length, so that slicing beyond the row panics as the model says
+	out := make([]byte, len(b))
+	copy(out, b)
+	return out[:len(b):len(b)]
+}
+
+type c19myCase struct {
+	kind      int // 1..4 encoder kind, 0 = no declared type
+	polIdx    int // 0..3 policy words, 4 = bogus (struct literal only)
+	binaryFmt bool
+	hasKey    bool
+	defMode   int // 0 none, 1 valid, 2 invalid (struct literal only)
+	storedAs  int // 0 envelope of the original, 1 garbage, 2 plain literal, 3 empty, 4 binary integer in an integer column, 5 truncated envelope, 6 SQL NULL
+	origin    base_mysql.Type
+	useID     bool // data_type_db_identifier instead of data_type
+	emptyOrig bool // the protected value is the empty string
+}
+
+type c19myDomain struct {
+	rep *vh.Report
+	r   *vh.Rng
+	sc  int
+}
+
+func (c *c19myDomain) micro() {
+	rep, r := c.rep, c.r
+	lits := append([]string{}, intLiterals...)
+	lits = append(lits, "127", "128", "-128", "-129", "32767", "32768", "-32768", "-32769", "255", "65535")
+	for i := 0; i < 16; i++ {
+		lits = append(lits, strconv.FormatInt(int64(r.U64())>>uint(r.Intn(64)), 10))
+	}
+	for li, l := range lits {
+		for _, bits := range []int{8, 16, 32, 64} {
+			if bits <= 16 && li%3 != 0 && li < len(intLiterals) {
+				continue
+			}
+			o := vh.Ok([]byte{2})
+			if v, err := strconv.ParseInt(l, 10, bits); err == nil {
+				buf := &bytes.Buffer{}
+				switch bits {
+				case 8:
+					binary.Write(buf, binary.LittleEndian, int8(v))
+				case 16:
+					binary.Write(buf, binary.LittleEndian, int16(v))
+				case 32:
+					binary.Write(buf, binary.LittleEndian, int32(v))
+				default:
+					binary.Write(buf, binary.LittleEndian, v)
+				}
+				o = vh.Ok([]byte{0}, buf.Bytes())
+			}
+			rep.Add(fmt.Sprintf("ParseInt(%q,%d) little endian", l, bits), fmt.Sprintf("MLe %d %s", bits, vh.H([]byte(l))), o)
 		}
-		set := newSetting(dataTypeOfKind[kind], 0, policyWords[pol], def)
-		if err := set.Init(true); err != nil {
-			rep.Count("init-refused")
-			return
+	}
+	for i := 0; i < 40; i++ {
+		w := r.Pick(1, 2, 4, 8)
+		b := r.Bytes(w)
+		if r.Intn(3) == 0 {
+			for j := range b {
+				b[j] = []byte{0, 0xff, 0x80, 0x7f}[r.Intn(4)]
+			}
 		}
-		typeID := common.MySQLEncryptedTypeDataTypeIDs[common.EncryptedType(kind)]
+		var v int64
+		switch w {
+		case 1:
+			v = int64(int8(b[0]))
+		case 2:
+			v = int64(int16(binary.LittleEndian.Uint16(b)))
+		case 4:
+			v = int64(int32(binary.LittleEndian.Uint32(b)))
+		default:
+			v = int64(binary.LittleEndian.Uint64(b))
+		}
+		rep.Add(fmt.Sprintf("binary.Read int%d %x", 8*w, b), "MLeDec "+vh.H(b), vh.Ok(strconv.AppendInt(nil, v, 10)))
+	}
+}
+
+// direct calls of the registered encoders and of the two processors
+func (c *c19myDomain) direct(set config.ColumnEncryptionSetting, binaryFmt bool, typ, origin byte, data []byte, lab string) {
+	rep := c.rep
+	ci := base.NewColumnInfo(0, "", binaryFmt, len(data), typ, origin)
+	mkctx := func(decrypted bool) context.Context {
+		ac := base.NewAccessContext(base.WithClientID([]byte(clientID)))
+		ac.SetColumnInfo(ci)
+		ctx := encryptor.NewContextWithEncryptionSetting(base.SetAccessContextToContext(context.Background(), ac), set)
+		if decrypted {
+			ctx = base.MarkDecryptedContext(ctx)
+		}
+		return ctx
+	}
+	coqCI := c19myCoqCI(binaryFmt, typ, origin)
+	if e := type_awareness.GetMySQLDataTypeIDEncoders()[set.GetDBDataTypeID()]; e != nil {
+		format := mysql.NewDataTypeFormat(ci, set)
+		for _, decrypted := range []bool{false, true} {
+			in := append([]byte{}, data...)
+			ctx := mkctx(decrypted)
+			o := vh.Guard(func() vh.Outcome {
+				_, out, err := e.Encode(ctx, in, format)
+				if err != nil {
+					return c19myStatus(err)
+				}
+				if out == nil {
+					return vh.Ok([]byte{3})
+				}
+				return vh.Ok([]byte{0}, out)
+			})
+			rep.Add(lab+" Encode", fmt.Sprintf("MEnc %s %s %s %s", c19CoqSetting(set), c19CoqBool(binaryFmt), c19CoqBool(decrypted), vh.H(data)), o)
+		}
+		in := append([]byte{}, data...)
+		o := vh.Guard(func() vh.Outcome {
+			_, out, err := e.Decode(context.Background(), in, format)
+			if err != nil {
+				return c19myStatus(err)
+			}
+			if out == nil {
+				return vh.Ok([]byte{0})
+			}
+			return vh.Ok([]byte{1}, out)
+		})
+		rep.Add(lab+" Decode", fmt.Sprintf("MDec %d %s", set.GetDBDataTypeID(), vh.H(data)), o)
+		for _, bf := range []bool{false, true} {
+			f2 := mysql.NewDataTypeFormat(base.NewColumnInfo(0, "", bf, 0, typ, origin), set)
+			o = vh.Guard(func() vh.Outcome {
+				_, out, err := e.EncodeOnFail(context.Background(), f2)
+				if err != nil {
+					return c19myStatus(err)
+				}
+				if out == nil {
+					return vh.Ok([]byte{0}, []byte{0})
+				}
+				return vh.Ok([]byte{0}, []byte{1}, out)
+			})
+			rep.Add(lab+" EncodeOnFail", fmt.Sprintf("MFail %s %s", c19CoqSetting(set), c19CoqBool(bf)), o)
+		}
+		str := string(data)
+		rep.Add(lab+" ValidateDefaultValue", fmt.Sprintf("MValid %d %s", set.GetDBDataTypeID(), vh.H(data)), vh.Ok(c19myFlag(e.ValidateDefaultValue(&str) == nil)))
+	}
+	in := append([]byte{}, data...)
+	o := vh.Guard(func() vh.Outcome {
+		_, out, err := mysql.NewDataDecoderProcessor().OnColumn(mkctx(false), in)
+		if err != nil {
+			return c19myStatus(err)
+		}
+		return vh.Ok([]byte{0}, out)
+	})
+	rep.Add(lab+" DataDecoderProcessor", fmt.Sprintf("MDecP %s %s %s", c19CoqSetting(set), coqCI, vh.H(data)), o)
+	for _, decrypted := range []bool{false, true} {
+		in := append([]byte{}, data...)
+		o := vh.Guard(func() vh.Outcome {
+			ctx, out, err := mysql.NewDataEncoderProcessor().OnColumn(mkctx(decrypted), in)
+			if err != nil {
+				return c19myStatus(err)
+			}
+			return vh.Ok([]byte{0}, c19myFlag(base.IsErrorConvertedDataTypeFromContext(ctx)), out)
+		})
+		rep.Add(lab+" DataEncoderProcessor", fmt.Sprintf("MEncP %s %s %s %s", c19CoqSetting(set), coqCI, c19CoqBool(decrypted), vh.H(data)), o)
+	}
+}
+
+func (c *c19myDomain) scenario(cs c19myCase) {
+	rep, r := c.rep, c.r
+	c.sc++
+	lab := fmt.Sprintf("my sc%d kind=%d pol=%s bin=%v key=%v def=%d stored=%d origin=%d", c.sc, cs.kind, policyWords[cs.polIdx], cs.binaryFmt, cs.hasKey, cs.defMode, cs.storedAs, cs.origin)
+	rep.Count(fmt.Sprintf("kind:%d", cs.kind))
+	rep.Count("policy:" + policyWords[cs.polIdx])
+	rep.Count(fmt.Sprintf("binary:%v", cs.binaryFmt))
+	rep.Count(fmt.Sprintf("reader-has-key:%v", cs.hasKey))
+	rep.Count(fmt.Sprintf("stored:%d", cs.storedAs))
+	rep.Count(fmt.Sprintf("origin-type:%d", cs.origin))
+	var def *string
+	if cs.defMode != 0 {
+		d := genDefault(r, cs.kind, cs.defMode == 1)
+		def = &d
+	}
+	// ---- the setting: through the real Init (validated) or a struct literal
+	var set *config.BasicColumnEncryptionSetting
+	validated := false
+	if cs.polIdx < 4 && cs.defMode != 2 {
+		if cs.useID && cs.kind != 0 {
+			set = newSetting("", common.MySQLEncryptedTypeDataTypeIDs[common.EncryptedType(cs.kind)], policyWords[cs.polIdx], def)
+		} else {
+			set = newSetting(dataTypeOfKind[cs.kind], 0, policyWords[cs.polIdx], def)
+		}
+		if err := set.Init(true); err == nil {
+			validated = true
+		} else {
+			set = nil
+		}
+	}
+	rep.Count(fmt.Sprintf("init-accepted:%v", validated))
+	if set == nil {
+		id := uint32(0)
+		if cs.kind != 0 {
+			id = common.MySQLEncryptedTypeDataTypeIDs[common.EncryptedType(cs.kind)]
+		}
+		set = newSetting(dataTypeOfKind[cs.kind], id, policyWords[cs.polIdx], def)
+	}
+	typeID := uint32(0)
+	if cs.kind != 0 {
+		typeID = common.MySQLEncryptedTypeDataTypeIDs[common.EncryptedType(cs.kind)]
 		rep.OracleChecks++
-		if set.GetDBDataTypeID() != typeID {
+		if validated && set.GetDBDataTypeID() != typeID {
 			rep.Violate("mysql-type-id", "Init resolved another MySQL type id than the declared type", lab)
 		}
-		owner := vh.NewKeySet(r, 1, 1, true)
+	}
+	if validated && def != nil {
+		rep.OracleChecks++
+		if _, ok := myDefault(cs.kind, cs.binaryFmt, *def); !ok {
+			rep.Violate("init-accepts-invalid-default", "Init accepted a default value that is not a value of the declared type", fmt.Sprintf("%s default=%q", lab, *def))
+		}
+	}
+
+	// ---- the column definition the database sent, and its rewrite
+	dbField := mysql.VerifField{Table: "t", Name: "c", Type: byte(cs.origin), Charset: uint16(r.Pick(63, 63, 33, 45, 8, 255)),
+		ColumnLength: uint32(r.Pick(255, 65535, 16777215, 4294967295, 11, 20, 0)), Decimal: uint8(r.Pick(0, 0, 31))}
+	dbField.Flag = uint16(r.Pick(0, 16, 16|128, 16|128|4096, 128, 1|16|128, 0xffff, 4096|1))
+	store := &c19myStore{set}
+	var field mysql.VerifField
+	var dump []byte
+	o := vh.Guard(func() vh.Outcome {
+		field, dump = mysql.VerifUpdateFieldEncodedType(dbField, store)
+		return vh.Ok(c19myCDVals(field, dump)...)
+	})
+	rep.Add(lab+" updateFieldEncodedType", fmt.Sprintf("MField (Some %s) %s", c19CoqSetting(set), c19myCoqCD(dbField)), o)
+	if o.Kind != "ok" {
+		rep.OracleChecks++
+		rep.Violate("panic", "updateFieldEncodedType panicked: "+o.Msg, lab)
+		return
+	}
+	if r.Intn(8) == 0 { // a column of another table: left alone
+		other := dbField
+		other.Table = "u"
+		f2, d2 := mysql.VerifUpdateFieldEncodedType(other, store)
+		rep.Add(lab+" updateFieldEncodedType other table", fmt.Sprintf("MField None %s", c19myCoqCD(other)), vh.Ok(c19myCDVals(f2, d2)...))
+		rep.OracleChecks++
+		if f2 != other {
+			rep.Violate("mysql-column-definition-foreign", "a column without a setting was rewritten", lab)
+		}
+	}
+	if validated && cs.kind != 0 {
+		rep.OracleChecks++
+		bad := ""
+		switch {
+		case uint32(field.Type) != typeID || !field.Changed || field.OriginType != byte(cs.origin):
+			bad = "does not name the declared type (or lost the origin type)"
+		case cs.kind != 3 && field.Charset != 63:
+			bad = "an integer / blob column is not described with the binary charset"
+		case cs.kind == 3 && field.Charset == 63:
+			bad = "a string column is described with the binary charset"
+		case cs.kind != 4 && field.Flag&mysql.BlobFlag != 0:
+			bad = "an integer / string column keeps the BLOB flag"
+		case field.Flag|mysql.BlobFlag != dbField.Flag|mysql.BlobFlag:
+			bad = "flags other than BLOB changed"
+		}
+		if bad != "" {
+			rep.Violate("mysql-column-definition", "rewritten column definition "+bad, fmt.Sprintf("%s db=%+v rewritten=%+v", lab, dbField, field))
+		}
+	}
+
+	// ---- the stored value and the row
+	owner := vh.NewKeySet(r, 1, 1, true)
+	orig := genOriginal(r, cs.kind)
+	if cs.emptyOrig {
+		orig = []byte{}
+	}
+	var raw []byte
+	isEnvelope := false
+	originW := c19myIntWidth(cs.origin)
+	switch cs.storedAs {
+	case 0, 5:
+		id := byte(crypto.AcraBlockEnvelopeID)
+		if r.Intn(3) == 0 {
+			id = crypto.AcraStructEnvelopeID
+		}
+		vh.StartTape(r)
+		env, err := crypto.NewRegistryHandler(storeFor(owner)).EncryptWithHandler(handlerByID(id), []byte(clientID), append([]byte{}, orig...))
+		vh.StopTape()
+		if err != nil {
+			rep.Count("encrypt-error")
+			return
+		}
+		raw, isEnvelope = env, true
+		if cs.storedAs == 5 {
+			raw, isEnvelope = env[:len(env)-1-r.Intn(len(env)/2)], false
+		}
+	case 1:
+		raw = genBytes(r)
+	case 2:
+		raw = append([]byte{}, orig...)
+	case 4:
+		raw = r.Bytes(originW)
+		if r.Bool() {
+			for i := range raw {
+				raw[i] = []byte{0, 0xff, 0x80, 0x7f, 1}[r.Intn(5)]
+			}
+		}
+	default:
+		raw = []byte{}
+	}
+	// what the processors are handed for this cell (binary protocol + integer column: the decimal text)
+	isNull := cs.storedAs == 6
+	var row []byte
+	if cs.binaryFmt {
+		row = []byte{0, 0}
+		if isNull {
+			row[1] = 4
+		} else if originW > 0 {
+			if len(raw) != originW { // an integer column holds integers only
+				raw = make([]byte, originW)
+			}
+			row = append(row, raw...)
+		} else if cs.origin != base_mysql.TypeNull {
+			row = append(row, lenEnc(raw)...)
+		}
+		if r.Intn(12) == 0 && len(row) > 2 { // malformed stream: truncated row / foreign header
+			if r.Bool() {
+				row = row[:2+r.Intn(len(row)-2)]
+			} else {
+				row[0] = byte(r.Pick(0xfe, 0xff, 1))
+			}
+			rep.Count("row:malformed")
+		}
+	} else {
+		if isNull {
+			row = []byte{0xfb}
+		} else {
+			row = lenEnc(raw)
+		}
+		if r.Intn(12) == 0 {
+			row = row[:r.Intn(len(row))]
+			rep.Count("row:malformed")
+		} else if r.Intn(12) == 0 {
+			row = append(row, r.Bytes(1+r.Intn(4))...)
+			rep.Count("row:trailing")
+		}
+	}
+	wellFormedRow := true
+	if cs.binaryFmt {
+		want := []byte{0, 0}
+		if isNull {
+			want[1] = 4
+		} else if originW > 0 {
+			want = append(want, raw...)
+		} else if cs.origin != base_mysql.TypeNull {
+			want = append(want, lenEnc(raw)...)
+		}
+		wellFormedRow = bytes.Equal(row, want)
+	} else if isNull {
+		wellFormedRow = bytes.Equal(row, []byte{0xfb})
+	} else {
+		wellFormedRow = bytes.Equal(row, lenEnc(raw))
+	}
+	row = c19myPin(row)
+
+	var reader *vh.KeySet
+	if cs.hasKey {
+		reader = owner
+	} else if r.Bool() {
+		reader = vh.NewKeySet(r, 1, 1, true)
+	}
+	st := storeFor(reader)
+	newSubs := func() ([]base.DecryptionSubscriber, *tapSub, *tapSub, *revealSub) {
+		det := crypto.NewEnvelopeDetector()
+		det.AddCallback(crypto.NewDecryptHandler(st, crypto.NewRegistryHandler(st)))
+		t1, t2 := &tapSub{name: "tap1"}, &tapSub{name: "tap2"}
+		rv := &revealSub{inner: det}
+		return []base.DecryptionSubscriber{mysql.NewDataDecoderProcessor(), t1, rv, t2, mysql.NewDataEncoderProcessor()}, t1, t2, rv
+	}
+	newCtx := func() (context.Context, *base.AccessContext) {
+		ac := base.NewAccessContext(base.WithClientID([]byte(clientID)))
+		return encryptor.NewContextWithEncryptionSetting(base.SetAccessContextToContext(context.Background(), ac), config.ColumnEncryptionSetting(set)), ac
+	}
+
+	// ---- end to end: the row through process{Text,Binary}DataRow
+	subs, t1, t2, rv := newSubs()
+	ctx, _ := newCtx()
+	var out []byte
+	var after []mysql.VerifField
+	var dumps [][]byte
+	var err error
+	ro := vh.Guard(func() vh.Outcome {
+		out, after, dumps, err = mysql.VerifProcessDataRow(ctx, subs, cs.binaryFmt, row, []mysql.VerifField{field})
+		if err != nil {
+			return c19myStatus(err)
+		}
+		return vh.Ok(append([][]byte{{0}, out}, c19myCDVals(after[0], dumps[0])...)...)
+	})
+	if rv.err != nil {
+		rep.Count("reveal-step-error")
+		return
+	}
+	decrypted := t2.hit && t2.dec
+	revealed := "None"
+	if decrypted {
+		revealed = "(Some " + vh.H(t2.seen) + ")"
+	}
+	rep.Add(lab+" row", fmt.Sprintf("MRow %s %s %s %s %s", c19CoqSetting(set), c19CoqBool(cs.binaryFmt), c19myCoqCD(dbField), revealed, vh.H(row)), ro)
+	rep.Count(fmt.Sprintf("decrypted:%v", decrypted))
+
+	// ---- the same cell through the subscriber chain alone (conversion flag visible)
+	if wellFormedRow && !isNull {
+		cellIn := append([]byte{}, raw...)
+		subs2, s1, s2, rv2 := newSubs()
+		obs := base.NewColumnDecryptionObserver()
+		for _, s := range subs2 {
+			obs.SubscribeOnAllColumnsDecryption(s)
+		}
+		ctx2, ac2 := newCtx()
+		ac2.SetColumnInfo(base.NewColumnInfo(0, "", cs.binaryFmt, len(cellIn), field.Type, field.OriginType))
+		co := vh.Guard(func() vh.Outcome {
+			rctx, cout, cerr := obs.OnColumnDecryption(ctx2, 0, cellIn)
+			if cerr != nil {
+				o := c19myStatus(cerr)
+				if s1.hit {
+					o.Vals = append(o.Vals, s1.seen)
+				}
+				return o
+			}
+			return vh.Ok([]byte{0}, s1.seen, c19myFlag(base.IsErrorConvertedDataTypeFromContext(rctx)), cout)
+		})
+		if rv2.err == nil {
+			rev2 := "None"
+			if s2.hit && s2.dec {
+				rev2 = "(Some " + vh.H(s2.seen) + ")"
+			}
+			rep.Add(lab+" cell", fmt.Sprintf("MCell %s %s %s %s", c19CoqSetting(set), c19myCoqCI(cs.binaryFmt, field.Type, field.OriginType), rev2, vh.H(cellIn)), co)
+		}
+	}
+	if r.Intn(5) == 0 {
+		c.direct(set, cs.binaryFmt, field.Type, field.OriginType, raw, lab)
+		c.direct(set, cs.binaryFmt, field.Type, field.OriginType, orig, lab)
+	}
+
+	// ---- the property's oracle, on the implementation only ----
+	replay := fmt.Sprintf("%s setting={type_id=%d policy=%q default=%v} db-column=%+v original=%q stored=%s row=%s delivered-row=%s err=%v",
+		lab, set.GetDBDataTypeID(), set.GetResponseOnFail(), optQ(def), dbField, orig, hx(raw), hx(row), hx(out), err)
+	if len(rep.Samples) < 5 {
+		rep.Samples = append(rep.Samples, replay)
+	}
+	if ro.Kind == "panic" {
+		rep.OracleChecks++
+		if wellFormedRow {
+			rep.Violate("panic", "MySQL row processing panicked: "+ro.Msg, replay)
+		} else {
+			rep.Count("malformed-row-panic") // C14 territory (slice of a truncated row)
+		}
+		return
+	}
+	blobOrigin := base_mysql.Type(cs.origin).IsBinaryType()
+	if !validated || cs.kind == 0 || !wellFormedRow || !(blobOrigin || cs.storedAs == 4) {
+		return // struct-literal settings, malformed rows, exotic column types: model comparison only
+	}
+	rep.OracleChecks++
+	_, isEncErr := err.(*base.EncodingError)
+	// split the delivered row
+	var cell []byte
+	if err == nil {
+		if cs.binaryFmt {
+			if len(out) < 2 || !bytes.Equal(out[:2], row[:2]) {
+				rep.Violate("mysql-row-header", "binary row header / NULL bitmap changed", replay)
+				return
+			}
+			cell = out[2:]
+		} else {
+			cell = out
+		}
+	}
+	finalType := byte(0)
+	if err == nil {
+		finalType = after[0].Type
+	}
+	typedDef := func() bool { return uint32(finalType) == typeID }
+	switch {
+	case isNull:
+		if err != nil || len(cell) != len(row)-map[bool]int{true: 2, false: 0}[cs.binaryFmt] || !typedDef() {
+			rep.Violate("mysql-null-not-kept", "a NULL cell did not stay NULL", replay)
+		}
+	case len(raw) == 0:
+		if err != nil || !bytes.Equal(cell, lenEnc(raw)) {
+			rep.Violate("mysql-empty-not-kept", "an empty value did not stay empty", replay)
+		} else if cs.binaryFmt && cs.kind <= 2 && typedDef() {
+			rep.Violate("mysql-binary-empty-value-in-int-column", "binary protocol: an empty value is delivered as one byte 00 in a column described as a fixed-width integer", replay)
+		}
+	case decrypted:
+		if !isEnvelope || !cs.hasKey || !bytes.Equal(t2.seen, orig) {
+			rep.Violate("mysql-reveal-mismatch", "revealed without key / to another value", replay)
+			return
+		}
+		if len(orig) == 0 {
+			if err != nil || !bytes.Equal(cell, lenEnc(orig)) {
+				rep.Violate("mysql-empty-not-kept", "an empty revealed value did not stay empty", replay)
+			} else if cs.binaryFmt && cs.kind <= 2 && typedDef() {
+				rep.Violate("mysql-binary-empty-value-in-int-column", "binary protocol: an empty revealed value is delivered as one byte 00 in a column described as a fixed-width integer", replay)
+			}
+			return
+		}
+		want, ok := myTyped(cs.kind, cs.binaryFmt, orig)
+		if !ok {
+			// no integer of the declared width: binary protocol refuses (statement error), text protocol hands it through
+			if err == nil && !bytes.Equal(cell, lenEnc(orig)) {
+				rep.Violate("mysql-owner-wrong-value", "a revealed non-integer was delivered changed", replay)
+			} else if err == nil {
+				rep.Violate("mysql-int-column-plaintext-not-integer", "a revealed value that is no integer of the declared width is delivered verbatim in a column described as integer", replay)
+			}
+			return
+		}
+		if err != nil || !bytes.Equal(cell, want) || !typedDef() {
+			rep.Violate("mysql-owner-wrong-value", "owner did not receive the original encoded as the declared type in a column described as that type", replay+" want="+hx(want))
+		}
+	default:
+		if isEnvelope && cs.hasKey {
+			rep.Violate("mysql-owner-not-revealed", "the owning reader's envelope was not revealed", replay)
+			return
+		}
+		seen := raw
+		if cs.storedAs == 4 { // a binary integer of an integer column reaches the processors as its decimal text
+			seen = t1.seen
+			var v int64
+			switch originW {
+			case 1:
+				v = int64(int8(raw[0]))
+			case 2:
+				v = int64(int16(binary.LittleEndian.Uint16(raw)))
+			case 4:
+				v = int64(int32(binary.LittleEndian.Uint32(raw)))
+			default:
+				v = int64(binary.LittleEndian.Uint64(raw))
+			}
+			if cs.binaryFmt && string(seen) != strconv.FormatInt(v, 10) {
+				rep.Violate("mysql-binary-int-decoded-wrong", "a little-endian integer cell was not decoded to its value", replay)
+				return
+			}
+			if !cs.binaryFmt {
+				return // text protocol never carries fixed-width integers
+			}
+		}
+		if typed, ok := myTyped(cs.kind, cs.binaryFmt, seen); ok && cs.kind <= 2 {
+			if err != nil || !bytes.Equal(cell, typed) || !typedDef() {
+				rep.Violate("mysql-plain-int-changed", "a stored plain integer was not delivered as the declared type", replay)
+			}
+			return
+		}
+		if cs.storedAs == 4 {
+			return // an integer outside the declared width / a str, bytes setting on an integer column: model comparison only
+		}
+		switch policyCode(set.GetResponseOnFail()) {
+		case 0, 1:
+			if err != nil || !bytes.Equal(cell, lenEnc(raw)) {
+				rep.Violate("mysql-ciphertext-policy-not-ciphertext", "policy ciphertext: delivered value is not the stored value", replay)
+			} else if finalType != byte(cs.origin) {
+				rep.Violate("mysql-ciphertext-described-as-typed", "policy ciphertext: the stored bytes are delivered in a column still described as the declared type", replay)
+			}
+		case 2:
+			if def == nil {
+				rep.Count("default-policy-without-default")
+				if err != nil || !bytes.Equal(cell, lenEnc(raw)) || finalType != byte(cs.origin) {
+					rep.Violate("mysql-default-policy-without-default", "policy default_value without a configured default: neither ciphertext nor error", replay)
+				}
+				return
+			}
+			want, ok := myDefault(cs.kind, cs.binaryFmt, *def)
+			if !ok || err != nil || !bytes.Equal(cell, want) {
+				rep.Violate("mysql-default-policy-not-default", "policy default_value: delivered value is not the configured default encoded as the declared type", replay+" want="+hx(want))
+			} else if !typedDef() {
+				rep.Violate("mysql-default-described-as-origin", "policy default_value: the default is delivered in a column not described as the declared type", replay)
+			}
+		case 3:
+			if !isEncErr {
+				rep.Violate("mysql-error-policy-no-error", "policy error: no encoding error for an unrevealed value", replay)
+			}
+		}
+	}
+}
+
+// c19myTapList records every call (the value after the reveal step and whether it was revealed)
+type c19myTapList struct {
+	seen [][]byte
+	dec  []bool
+}
+
+func (t *c19myTapList) ID() string { return "c19myTapList" }
+func (t *c19myTapList) OnColumn(ctx context.Context, data []byte) (context.Context, []byte, error) {
+	t.seen = append(t.seen, append([]byte{}, data...))
+	t.dec = append(t.dec, base.IsDecryptedFromContext(ctx))
+	return ctx, data, nil
+}
+
+// resultSet: the rows of ONE result set (one column of a binary type) through the same column definition.
+// pattern: 0 = envelope of the reader (revealed), 1 = envelope of another client (stays ciphertext), 2 = garbage,
+// 3 = plain literal. Oracle: every delivered cell must be framed as the FINAL column definition says.
+func (c *c19myDomain) resultSet(kind, polIdx int, binaryFmt bool, pattern []int) {
+	rep, r := c.rep, c.r
+	c.sc++
+	lab := fmt.Sprintf("my sc%d result-set kind=%d pol=%s bin=%v rows=%v", c.sc, kind, policyWords[polIdx], binaryFmt, pattern)
+	rep.Count(fmt.Sprintf("result-set:rows=%d", len(pattern)))
+	var def *string
+	if polIdx == 2 {
+		d := genDefault(r, kind, true)
+		def = &d
+	}
+	set := newSetting(dataTypeOfKind[kind], 0, policyWords[polIdx], def)
+	if err := set.Init(true); err != nil {
+		rep.Count("init-refused")
+		return
+	}
+	typeID := common.MySQLEncryptedTypeDataTypeIDs[common.EncryptedType(kind)]
+	origin := c19myBlobTypes[r.Intn(len(c19myBlobTypes))]
+	dbField := mysql.VerifField{Table: "t", Name: "c", Type: byte(origin), Charset: 63, ColumnLength: 65535, Flag: uint16(r.Pick(16|128, 128, 0))}
+	field, _ := mysql.VerifUpdateFieldEncodedType(dbField, &c19myStore{set})
+	owner, other := vh.NewKeySet(r, 1, 1, true), vh.NewKeySet(r, 1, 1, true)
+	var rows [][]byte
+	var raws [][]byte
+	for _, p := range pattern {
 		orig := genOriginal(r, kind)
+		if kind <= 2 && r.Intn(4) != 0 { // mostly values of the declared type
+			orig = []byte(strconv.FormatInt(int64(int32(r.U64())), 10))
+		}
 		var raw []byte
-		isEnvelope := false
-		switch storedAs {
-		case 0:
-			id := byte(crypto.AcraBlockEnvelopeID)
-			if r.Intn(3) == 0 {
-				id = crypto.AcraStructEnvelopeID
+		switch p {
+		case 0, 1:
+			ks := owner
+			if p == 1 {
+				ks = other
 			}
 			vh.StartTape(r)
-			env, err := crypto.NewRegistryHandler(storeFor(owner)).EncryptWithHandler(handlerByID(id), []byte(clientID), append([]byte{}, orig...))
+			env, err := crypto.NewRegistryHandler(storeFor(ks)).EncryptWithHandler(handlerByID(crypto.AcraBlockEnvelopeID), []byte(clientID), append([]byte{}, orig...))
 			vh.StopTape()
 			if err != nil {
 				rep.Count("encrypt-error")
 				return
 			}
-			raw, isEnvelope = env, true
-		case 1:
-			raw = genBytes(r)
+			raw = env
 		case 2:
-			raw = append([]byte{}, orig...)
+			raw = genBytes(r)
 		default:
-			raw = []byte{}
+			raw = orig
 		}
-		var reader *vh.KeySet
-		if hasKey {
-			reader = owner
+		row := lenEnc(raw)
+		if binaryFmt {
+			row = append([]byte{0, 0}, row...)
 		}
-		st := storeFor(reader)
-		det := crypto.NewEnvelopeDetector()
-		det.AddCallback(crypto.NewDecryptHandler(st, crypto.NewRegistryHandler(st)))
-		t2 := &tapSub{name: "tap2"}
-		rv := &revealSub{inner: det}
-		obs := base.NewColumnDecryptionObserver()
-		for _, s := range []base.DecryptionSubscriber{mysql.NewDataDecoderProcessor(), rv, t2, mysql.NewDataEncoderProcessor()} {
-			obs.SubscribeOnAllColumnsDecryption(s)
+		rows = append(rows, c19myPin(row))
+		raws = append(raws, raw)
+	}
+	st := storeFor(owner)
+	det := crypto.NewEnvelopeDetector()
+	det.AddCallback(crypto.NewDecryptHandler(st, crypto.NewRegistryHandler(st)))
+	tap := &c19myTapList{}
+	rv := &revealSub{inner: det}
+	subs := []base.DecryptionSubscriber{mysql.NewDataDecoderProcessor(), rv, tap, mysql.NewDataEncoderProcessor()}
+	ac := base.NewAccessContext(base.WithClientID([]byte(clientID)))
+	ctx := encryptor.NewContextWithEncryptionSetting(base.SetAccessContextToContext(context.Background(), ac), config.ColumnEncryptionSetting(set))
+	var outs [][]byte
+	var after []mysql.VerifField
+	var dumps [][]byte
+	var err error
+	o := vh.Guard(func() vh.Outcome {
+		outs, after, dumps, err = mysql.VerifProcessDataRows(ctx, subs, binaryFmt, rows, []mysql.VerifField{field})
+		if err != nil {
+			return c19myStatus(err)
 		}
-		// as mysql.Handler.onColumnDecryption builds it: field type rewritten to the declared one, origin = blob
-		ac := base.NewAccessContext(base.WithClientID([]byte(clientID)))
-		ac.SetColumnInfo(base.NewColumnInfo(0, "", binaryFmt, len(raw), byte(typeID), byte(base_mysql.TypeBlob)))
-		ctx := encryptor.NewContextWithEncryptionSetting(base.SetAccessContextToContext(context.Background(), ac), config.ColumnEncryptionSetting(set))
-		var out []byte
-		var err error
-		o := vh.Guard(func() vh.Outcome {
-			_, out, err = obs.OnColumnDecryption(ctx, 0, append([]byte{}, raw...))
-			return vh.Ok()
-		})
-		rep.Evaluations++
-		replay := fmt.Sprintf("%s setting={type_id=%d policy=%q default=%v} original=%q stored=%s delivered=%s err=%v", lab, typeID, set.GetResponseOnFail(), optQ(def), orig, hx(raw), hx(out), err)
-		if len(rep.Samples) < 5 {
-			rep.Samples = append(rep.Samples, replay)
-		}
-		rep.OracleChecks++
-		if o.Kind == "panic" {
-			rep.Violate("panic", "MySQL column processing panicked: "+o.Msg, replay)
+		return vh.Ok(append(append([][]byte{{0}}, outs...), c19myCDVals(after[0], dumps[0])...)...)
+	})
+	if rv.err != nil {
+		rep.Count("reveal-step-error")
+		return
+	}
+	term := ""
+	for i := range rows {
+		rev := "None"
+		if i < len(tap.dec) && tap.dec[i] {
+			rev = "(Some " + vh.H(tap.seen[i]) + ")"
+		} else if i >= len(tap.dec) && err == nil {
 			return
 		}
-		if rv.err != nil {
-			rep.Count("reveal-step-error")
-			return
+		if i > 0 {
+			term += "; "
 		}
-		_, isEncErr := err.(*base.EncodingError)
-		decrypted := t2.hit && t2.dec
-		rep.Count(fmt.Sprintf("decrypted:%v", decrypted))
-		switch {
-		case len(raw) == 0:
-			if err != nil || !bytes.Equal(out, lenEnc(raw)) {
-				rep.Violate("mysql-empty-not-kept", "an empty value did not stay empty", replay)
+		term += fmt.Sprintf("(%s, %s)", rev, vh.H(rows[i]))
+	}
+	rep.Add(lab+" rows", fmt.Sprintf("MRows %s %s %s [%s]", c19CoqSetting(set), c19CoqBool(binaryFmt), c19myCoqCD(dbField), term), o)
+	rep.OracleChecks++
+	replay := fmt.Sprintf("%s setting={type_id=%d policy=%q default=%v} db-column=%+v stored=%s delivered-rows=%s final-column=%+v err=%v",
+		lab, typeID, set.GetResponseOnFail(), optQ(def), dbField, c19myHxList(raws), c19myHxList(outs), after, err)
+	if o.Kind == "panic" {
+		rep.Violate("panic", "MySQL result set processing panicked: "+o.Msg, replay)
+		return
+	}
+	if err != nil {
+		return // an error fails the whole statement: single-row oracle
+	}
+	finalType := base_mysql.Type(after[0].Type)
+	if uint32(finalType) != typeID && finalType != origin {
+		rep.Violate("mysql-column-definition", "the final column definition names neither the declared nor the database's type", replay)
+		return
+	}
+	for i, out := range outs {
+		cell := out
+		if binaryFmt {
+			cell = out[2:]
+		}
+		ok := false
+		if w := c19myIntWidth(finalType); binaryFmt && w > 0 {
+			ok = len(cell) == w
+		} else {
+			_, n, lerr := base_mysql.LengthEncodedString(cell)
+			ok = lerr == nil && n == len(cell)
+		}
+		if !ok {
+			class := "mysql-binary-mixed-rows-type-rollback"
+			if !binaryFmt || uint32(finalType) == typeID {
+				class = "mysql-row-framing"
 			}
-		case decrypted:
-			if !isEnvelope || !hasKey || !bytes.Equal(t2.seen, orig) {
-				rep.Violate("mysql-reveal-mismatch", "revealed without key / to another value", replay)
-				return
-			}
-			want, ok := myTyped(kind, binaryFmt, orig)
-			if !ok {
-				// no integer of the declared width: binary protocol refuses (statement error), text protocol hands it through
-				if err == nil && !bytes.Equal(out, lenEnc(orig)) {
-					rep.Violate("mysql-owner-wrong-value", "a revealed non-integer was delivered changed", replay)
-				} else if err == nil {
-					rep.Violate("mysql-int-column-plaintext-not-integer", "a revealed value that is no integer of the declared width is delivered verbatim in a column described as integer", replay)
-				}
-				return
-			}
-			if err != nil || !bytes.Equal(out, want) {
-				rep.Violate("mysql-owner-wrong-value", "owner did not receive the original encoded as the declared type", replay+" want="+hx(want))
-			}
-		default:
-			if isEnvelope && hasKey {
-				rep.Violate("mysql-owner-not-revealed", "the owning reader's envelope was not revealed", replay)
-				return
-			}
-			if typed, ok := myTyped(kind, binaryFmt, raw); ok && kind <= 2 {
-				if err != nil || !bytes.Equal(out, typed) {
-					rep.Violate("mysql-plain-int-changed", "a stored plain integer literal was not delivered as the declared type", replay)
-				}
-				return
-			}
-			switch policyCode(set.GetResponseOnFail()) {
-			case 0, 1:
-				if err != nil || !bytes.Equal(out, lenEnc(raw)) {
-					rep.Violate("mysql-ciphertext-policy-not-ciphertext", "policy ciphertext: delivered value is not the stored value", replay)
-				}
-			case 2:
-				want, ok := myDefault(kind, binaryFmt, *def)
-				if !ok || err != nil || !bytes.Equal(out, want) {
-					rep.Violate("mysql-default-policy-not-default", "policy default_value: delivered value is not the configured default encoded as the declared type", replay+" want="+hx(want))
-				}
-			case 3:
-				if !isEncErr {
-					rep.Violate("mysql-error-policy-no-error", "policy error: no encoding error for an unrevealed value", replay)
-				}
-			}
+			rep.Violate(class, fmt.Sprintf("row %d of the result set is not framed as the final column definition (type %d) says", i, finalType), replay)
+			return
 		}
 	}
-	reps := 2
+}
+
+func c19myHxList(bs [][]byte) string {
+	out := "["
+	for i, b := range bs {
+		if i > 0 {
+			out += " "
+		}
+		out += hx(b)
+	}
+	return out + "]"
+}
+
+func runC19My(rep *vh.Report, r *vh.Rng, n int, thorough bool) {
+	r = vh.NewRng(r.U64())
+	c := &c19myDomain{rep: rep, r: r}
+	c.micro()
+	blob := func() base_mysql.Type { return c19myBlobTypes[r.Intn(len(c19myBlobTypes))] }
+	// the cross product type x policy x protocol x reader, each cell of the matrix at least once
+	reps := 1
 	if thorough {
 		reps = 8
 	}
@@ -210,13 +892,84 @@ func runC19My(rep *vh.Report, r *vh.Rng, n int, thorough bool) {
 			for pol := 0; pol < 4; pol++ {
 				for _, bin := range []bool{false, true} {
 					for _, key := range []bool{false, true} {
-						one(kind, pol, bin, key, []int{0, 0, 1, 2, 3, 0, 1, 2}[i%8])
+						cs := c19myCase{kind: kind, polIdx: pol, binaryFmt: bin, hasKey: key, origin: base_mysql.TypeBlob, useID: i%2 == 1}
+						if pol == 2 {
+							cs.defMode = 1
+						}
+						if i > 0 {
+							cs.storedAs = []int{0, 0, 1, 2, 3, 5, 6, 1}[i%8]
+							cs.origin = blob()
+						}
+						c.scenario(cs)
 					}
 				}
 			}
 		}
 	}
+	// boundaries: int64 defaults over the whole range in both protocols; empty values; integer columns
+	for _, bin := range []bool{false, true} {
+		for i := 0; i < 6; i++ {
+			c.scenario(c19myCase{kind: 2, polIdx: 2, binaryFmt: bin, defMode: 1, origin: base_mysql.TypeBlob, storedAs: i % 2})
+		}
+		for kind := 1; kind <= 4; kind++ {
+			c.scenario(c19myCase{kind: kind, polIdx: 1, binaryFmt: bin, origin: base_mysql.TypeBlob, storedAs: 3})
+			c.scenario(c19myCase{kind: kind, polIdx: 3, binaryFmt: bin, hasKey: true, origin: base_mysql.TypeBlob, emptyOrig: true})
+		}
+	}
+	for _, t := range c19myIntTypes {
+		for kind := 1; kind <= 2; kind++ {
+			c.scenario(c19myCase{kind: kind, polIdx: r.Intn(4), binaryFmt: true, origin: t, storedAs: 4})
+		}
+	}
+	// result sets: rows of the reader mixed with rows that stay ciphertext, same column definition
+	for _, bin := range []bool{false, true} {
+		for kind := 1; kind <= 4; kind++ {
+			c.resultSet(kind, 1, bin, []int{0, 1})
+			c.resultSet(kind, r.Intn(4), bin, []int{r.Intn(4), r.Intn(4), r.Intn(4)})
+		}
+		c.resultSet(1, 2, bin, []int{1, 0, 2})
+		c.resultSet(2, 0, bin, []int{3, 2})
+	}
+	for i := 0; i < n/8; i++ {
+		pat := make([]int, 1+r.Intn(4))
+		for j := range pat {
+			pat[j] = r.Intn(4)
+		}
+		c.resultSet(1+r.Intn(4), r.Intn(4), r.Bool(), pat)
+	}
+	// random scenarios: ~80 % well-formed, the rest malformed settings / columns
 	for i := 0; i < n; i++ {
-		one(1+r.Intn(4), r.Intn(4), r.Bool(), r.Intn(3) != 0, []int{0, 0, 0, 0, 1, 2, 3}[r.Intn(7)])
+		cs := c19myCase{kind: 1 + r.Intn(4), polIdx: r.Intn(4), binaryFmt: r.Bool(), hasKey: r.Intn(3) != 0, origin: blob(), useID: r.Intn(3) == 0}
+		if cs.polIdx == 2 || r.Intn(8) == 0 {
+			cs.defMode = 1
+		}
+		cs.storedAs = []int{0, 0, 0, 0, 0, 1, 2, 3, 5, 6}[r.Intn(10)]
+		if r.Intn(5) == 0 { // malformed stream
+			switch r.Intn(6) {
+			case 0:
+				cs.kind = 0
+			case 1:
+				cs.polIdx = 4
+			case 2:
+				cs.defMode = 2
+			case 3:
+				cs.origin = c19myOtherLenencTypes[r.Intn(len(c19myOtherLenencTypes))]
+			case 4:
+				cs.origin = c19myIntTypes[r.Intn(len(c19myIntTypes))]
+				cs.storedAs = 4
+			default:
+				cs.origin = base_mysql.TypeNull
+				cs.storedAs = 3
+			}
+			rep.Count("stream:malformed")
+		} else {
+			rep.Count("stream:structured")
+			if r.Intn(10) == 0 {
+				cs.origin = c19myIntTypes[r.Intn(len(c19myIntTypes))]
+				cs.storedAs = 4
+				cs.kind = 1 + r.Intn(2)
+			}
+		}
+		c.scenario(cs)
 	}
 }
